@@ -55,7 +55,7 @@ def mon_forced(ri):
 
 
 def run(ctx):
-    bdir, A = runcheck.setup(ctx, ["Wrap:stop_request|wrappers_pass|optimize_preserves_settings", "C03:stop_forced"] + runcheck.drv("forced"))
+    bdir, A = runcheck.setup(ctx, ["Wrap:stop_request|wrappers_pass|optimize_preserves_settings", "C03:stop_forced"] + runcheck.drv("forced|^t2_|^T2$"))
     if bdir:
         ctx.algnames = A.names
         rng = random.Random(ctx.seed * 67 + 4)
